@@ -460,6 +460,13 @@ enum GStmt {
     UDel(u64),
     USel,
     Ckpt,
+    /// `wnew g` / `wdrop g`: CREATE / DROP TABLE w<g> (id BIGINT, v INT); `vac`: Database::vacuum; `wins g id v`; `wsel g` —
+    /// side tables that come and go, so that pages travel through the free list and roots are recycled
+    WNew(u64),
+    WDrop(u64),
+    Vac,
+    WIns(u64, u64, u64),
+    WSel(u64),
 }
 
 fn parse_gstmt(ws: &[&str]) -> Option<GStmt> {
@@ -485,6 +492,11 @@ fn parse_gstmt(ws: &[&str]) -> Option<GStmt> {
         ["udel", a] => GStmt::UDel(num(a)?),
         ["usel"] => GStmt::USel,
         ["ckpt"] => GStmt::Ckpt,
+        ["wnew", g] => GStmt::WNew(num(g)?),
+        ["wdrop", g] => GStmt::WDrop(num(g)?),
+        ["vac"] => GStmt::Vac,
+        ["wins", g, a, b] => GStmt::WIns(num(g)?, num(a)?, num(b)?),
+        ["wsel", g] => GStmt::WSel(num(g)?),
         _ => return None,
     })
 }
@@ -515,7 +527,11 @@ fn sql_of(st: &GStmt) -> Option<String> {
         GStmt::UIns(id, code, v) => format!("INSERT INTO u VALUES ({}, 'c{}', {})", id, code, v),
         GStmt::UDel(id) => format!("DELETE FROM u WHERE id = {}", id),
         GStmt::USel => "SELECT id, code, v FROM u".to_string(),
-        GStmt::Ckpt | GStmt::Bulk(..) => return None,
+        GStmt::WNew(g) => format!("CREATE TABLE w{} (id BIGINT, v INT)", g),
+        GStmt::WDrop(g) => format!("DROP TABLE w{}", g),
+        GStmt::WIns(g, id, v) => format!("INSERT INTO w{} VALUES ({}, {})", g, id, v),
+        GStmt::WSel(g) => format!("SELECT id, v FROM w{}", g),
+        GStmt::Ckpt | GStmt::Vac | GStmt::Bulk(..) => return None,
     })
 }
 
@@ -712,6 +728,14 @@ fn run_workload_into(cfg: GridCfg, stmts: Vec<GStmt>, path: std::path::PathBuf, 
                     ("ok".to_string(), false)
                 }
             }
+            // VACUUM runs under every configuration (it is part of the workload, not of the configuration)
+            GStmt::Vac => match db.vacuum() {
+                Ok(_) => ("ok".to_string(), false),
+                Err(e) => {
+                    let dead = e.to_string().contains("channel closed");
+                    (if dead { "panic".to_string() } else { db_err_class(&e) }, dead)
+                }
+            },
             GStmt::Bulk(lo, n, k, len) => {
                 let mut out = (format!("affected {}", n), false);
                 for id in *lo..*lo + *n {
@@ -779,6 +803,7 @@ fn oracle(stmts: &[GStmt]) -> Vec<String> {
     use std::collections::BTreeMap;
     let mut t: BTreeMap<u64, (u64, u64)> = BTreeMap::new(); // id -> (k, body len)
     let mut u: BTreeMap<u64, (u64, u64)> = BTreeMap::new(); // id -> (code, v)
+    let mut w: BTreeMap<u64, BTreeMap<u64, u64>> = BTreeMap::new(); // side table -> id -> v
     let cell = |id: u64, len: u64| {
         let s = body_of(id, len);
         if s.len() > 40 {
@@ -862,7 +887,31 @@ fn oracle(stmts: &[GStmt]) -> Vec<String> {
             }
             GStmt::UDel(id) => format!("affected {}", u.remove(id).is_some() as u8),
             GStmt::USel => show_u(&u),
-            GStmt::Ckpt => "ok".into(),
+            GStmt::Ckpt | GStmt::Vac => "ok".into(),
+            GStmt::WNew(g) => {
+                if w.contains_key(g) {
+                    "err:other".into()
+                } else {
+                    w.insert(*g, BTreeMap::new());
+                    "ddl".into()
+                }
+            }
+            GStmt::WDrop(g) => if w.remove(g).is_some() { "ddl".into() } else { "err:bind".into() },
+            GStmt::WIns(g, id, v) => match w.get_mut(g) {
+                Some(m) => {
+                    m.insert(*id, *v);
+                    "affected 1".into()
+                }
+                None => "err:bind".into(),
+            },
+            GStmt::WSel(g) => match w.get(g) {
+                Some(m) => {
+                    let mut out: Vec<String> = m.iter().map(|(id, v)| format!("{}|{}", id, v)).collect();
+                    out.sort();
+                    format!("rows {} [{}]", out.len(), out.join(";"))
+                }
+                None => "err:bind".into(),
+            },
         });
     }
     res.push(show_t(&t, &|_, _| true, false));
@@ -998,6 +1047,51 @@ fn gen_grid(rng: &mut Rng, n_cfg: u64, big: bool) -> String {
         ops.push(op);
     }
     format!("grid {} {} {} | {}", rng.below(1 << 40), n_cfg, small as u8, ops.join(" ; "))
+}
+
+/// Side tables that come and go: `w1` is created, filled and dropped, VACUUM puts its pages on the free list, `w2` is created
+/// (its root is a recycled page) and stays EMPTY while unrelated inserts push pages through the small caches of the grid;
+/// only then does it get its first rows. A configuration in which the recycled root did not survive its eviction answers
+/// differently from one in which it never left the cache.
+fn gen_grid_recycle(rng: &mut Rng, n_cfg: u64) -> String {
+    let mut ops: Vec<String> = Vec::new();
+    let mut next_id = 1u64;
+    let bulk = |rng: &mut Rng, ops: &mut Vec<String>, next_id: &mut u64, n: u64| {
+        ops.push(format!("bulk {} {} {} {}", *next_id, n, rng.below(50), 40 + rng.below(200)));
+        *next_id += n;
+    };
+    let n0 = 20 + rng.below(40);
+    bulk(rng, &mut ops, &mut next_id, n0);
+    let mut g = 1u64;
+    for round in 0..rng.range(1, 3) {
+        ops.push(format!("wnew {}", g));
+        for i in 0..rng.range(1, 60) as u64 {
+            ops.push(format!("wins {} {} {}", g, i + 1, rng.below(100)));
+        }
+        if rng.chance(1, 2) {
+            ops.push("ckpt".into());
+        }
+        ops.push(format!("wdrop {}", g));
+        ops.push("vac".into());
+        g += 1;
+        ops.push(format!("wnew {}", g));
+        if rng.chance(1, 3) {
+            ops.push("ckpt".into());
+        }
+        // unrelated work: enough pages to turn over a cache of a few dozen pages
+        let n1 = 150 + rng.below(250);
+        bulk(rng, &mut ops, &mut next_id, n1);
+        if rng.chance(1, 2) {
+            ops.push("sel cnt".into());
+        }
+        for i in 0..rng.range(1, 5) as u64 {
+            ops.push(format!("wins {} {} {}", g, i + 1, 10 * round as u64 + i));
+        }
+        ops.push(format!("wsel {}", g));
+        g += 1;
+    }
+    ops.push("sel cnt".into());
+    format!("grid {} {} 1 | {}", rng.below(1 << 40), n_cfg, ops.join(" ; "))
 }
 
 // ------------------------------------------------------------------------------------------------ script grids
@@ -1541,6 +1635,10 @@ impl Engine for CacheEngine {
         for i in 0..(8 * scale) {
             // 6 of 8 workloads stay below 300 bytes per row; 2 of 8 carry large rows (region `bigrows`)
             lines.push(gen_grid(&mut r_grid, 12, i % 4 == 3));
+        }
+        let mut r_rec = rng.fork("grid-recycle");
+        for _ in 0..(2 * scale) {
+            lines.push(gen_grid_recycle(&mut r_rec, 8));
         }
         gen_script_grids(rng, tier, &mut lines);
         // Tags describe what the case reaches on the real code (outcome classes), so they are measured, not guessed.
